@@ -153,7 +153,7 @@ func (a *origAnalysis) symOf(env *oenv, v ssa.Value, d int) []osym {
 		case *ssa.FieldAddr:
 			fname := fieldName(ad.X.Type(), ad.Field)
 			if al, ok := ad.X.(*ssa.Alloc); ok {
-				fs := a.fieldsOfAlloc(env, al, d+1)
+				fs := a.fieldsOfAlloc(env, al, d+1, x)
 				if s, ok := fs[fname]; ok {
 					return s
 				}
@@ -269,7 +269,7 @@ func (a *origAnalysis) isElemSpill(env *oenv, al *ssa.Alloc) bool {
 }
 
 // fieldsOfAlloc: origin sets of the fields of a local struct variable.
-func (a *origAnalysis) fieldsOfAlloc(env *oenv, al *ssa.Alloc, d int) map[string][]osym {
+func (a *origAnalysis) fieldsOfAlloc(env *oenv, al *ssa.Alloc, d int, use ssa.Instruction) map[string][]osym {
 	st, ok := derefType(al.Type()).Underlying().(*types.Struct)
 	out := map[string][]osym{}
 	if !ok || d > 12 {
@@ -306,8 +306,12 @@ func (a *origAnalysis) fieldsOfAlloc(env *oenv, al *ssa.Alloc, d int) map[string
 		for _, r2 := range referrers(fa) {
 			if s, isSt := r2.(*ssa.Store); isSt && s.Addr == ssa.Value(fa) {
 				direct[f] = append(direct[f], a.symOf(env, s.Val, d+1)...)
-				// a composite literal's field stores are unconditional (same block as the alloc)
+				// a composite literal's field stores are unconditional (same block as the alloc); so is any
+				// field store that dominates the point where the struct is read
 				if al.Comment == "complit" && s.Block() == al.Block() {
+					allPaths[f] = true
+				}
+				if use != nil && s.Parent() == use.Parent() && instrDominates(s, use) {
 					allPaths[f] = true
 				}
 			}
@@ -351,7 +355,7 @@ func (a *origAnalysis) fieldsOf(env *oenv, v ssa.Value, d int) map[string][]osym
 				if a.isElemSpill(env, al) {
 					return all(func(f string) osym { return osym{Kind: "elemfield", Field: f} })
 				}
-				return a.fieldsOfAlloc(env, al, d+1)
+				return a.fieldsOfAlloc(env, al, d+1, x)
 			}
 		}
 	case *ssa.Parameter, *ssa.FreeVar:
